@@ -29,7 +29,7 @@ COMPONENTS = {
     'real': ['bamBinCounts.generate_jobs', 'generate_commands', 'count_fragments_binned', 'read_counts', 'obtain_counts', 'pysam BAM write/index/fetch'],
     'stub': ['SimPool (bamBinCounts.multiprocessing): seeded start/complete/deliver order, pool width'],
 }
-REQUIRED_PROBES = ['several_bam_files', 'site_on_job_boundary', 'site_owned_by_other_job_than_read_start', 'multi_job', 'delivery_order_not_submission_order', 'filtered_record']
+REQUIRED_PROBES = ['file_rewritten_and_counted_again', 'several_bam_files', 'site_on_job_boundary', 'site_owned_by_other_job_than_read_start', 'multi_job', 'delivery_order_not_submission_order', 'filtered_record']
 
 
 def plan(tier):
@@ -104,7 +104,20 @@ def generate(seed, tier):
     for bpj in bpj_all:
         configs.append({'bins_per_job': bpj, 'threads': st.schedule.randint(1, 8),
                         'schedule': {'policy': 'seeded', 'seed': f'{seed}/{bpj}'}})
-    return {'params': params, 'workload': recs, 'configs': configs}
+    second = None
+    if w.random() < 0.2 and recs:
+        # history in one process: the BAM at this path is re-written (longer contigs, one more contig, more records) and counted again
+        extra = []
+        c2 = [[c, l + w.randint(1, 3) * bin_size] for c, l in contigs] + [[f'c{nctg}', w.randint(2, 6) * bin_size]]
+        for n in range(nrec, nrec + w.randint(1, 12)):
+            ci = w.randrange(len(c2))
+            clen = c2[ci][1]
+            rl = w.randint(1, min(50, clen))
+            start = w.randint(max(0, (contigs[ci][1] if ci < nctg else 0) - rl), clen - rl)
+            extra.append({'n': n, 'cell': w.randrange(ncell), 'ctg': ci, 'start': start, 'len': rl, 'ds': min(clen - 1, start + w.randint(0, min(mfs, rl))),
+                          'rev': False, 'r1': True, 'paired': False, 'qcfail': False, 'dup': False, 'mq': 60, 'mp': None, 'da': None, 'sm': True})
+        second = {'contigs': c2, 'extra': extra, 'bins_per_job': [w.choice(bpj_all), w.choice(bpj_all)]}
+    return {'params': params, 'workload': recs, 'configs': configs, 'second': second}
 
 
 def write_bam(path, contigs, recs):
@@ -254,6 +267,31 @@ def execute(case):
                                             'got_not_want': sorted((list(map(str, k)), sorted(v.items())) for k, v in extra.items())[:4]}})
                 log.add('cfg', ci, bpj, sub.digest())
                 sigs.append((sub.digest()[:16], njobs > 1 and n_counting > 0 and cross))
+            if case.get('second') and not params.get('split_files'):
+                sec = case['second']
+                p2 = dict(params, contigs=sec['contigs'])
+                recs2 = recs + sec['extra']
+                write_bam(bam, p2['contigs'], recs2)        # same path, new content, fresh index
+                want2 = model_counts(p2, recs2)
+                probe('file_rewritten_and_counted_again')
+                for bpj in sec['bins_per_job']:
+                    sub = EventLog()
+                    sched = Scheduler({'policy': 'seeded'}, stream(f"{case.get('run_seed')}/second/{bpj}", 'schedule'), sub)
+                    bbc.multiprocessing = SimPoolFactory(sched)
+                    try:
+                        cmds = list(bbc.generate_commands(bam, bin_size=p2['bin_size'], bins_per_job=bpj, min_mq=p2['min_mq'], max_fragment_size=p2['max_fragment_size'],
+                                                          key_tags=p2['key_tags'], dedup=p2['dedup'], kwargs={'ignore_mp': p2['ignore_mp']}))
+                        got2 = {k: dict(v) for k, v in bbc.obtain_counts(cmds, reference=None, live_update=False, threads=2).items() if v}
+                    except SimHang:
+                        raise
+                    except Exception as e:
+                        viol.append({'property': PROPERTY, 'class': 'counting-raised', 'signature': 'second-version/' + type(e).__name__, 'detail': {'error': repr(e)[:300]}})
+                        continue
+                    log.add('second', bpj, sorted((list(map(str, k)), sorted(v.items())) for k, v in got2.items()))
+                    if got2 != want2:
+                        tg, tw_ = sum(sum(v.values()) for v in got2.values()), sum(sum(v.values()) for v in want2.values())
+                        viol.append({'property': PROPERTY, 'class': 'undercount' if tg < tw_ else 'wrong-bin', 'signature': 'second-version-of-the-file',
+                                     'detail': {'bins_per_job': bpj, 'total_got': tg, 'total_want': tw_, 'contigs_before': params['contigs'], 'contigs_after': sec['contigs']}})
         finally:
             bbc.multiprocessing = real_mp
     return {'violations': viol, 'digest': log.digest(), 'probes': probes, 'faults': {}, 'evals': len(case['configs']),
